@@ -632,4 +632,89 @@ Proof.
   - intros [e [H1 H2]]. apply andb_true_iff in H2 as [H2 H3]. eauto.
 Qed.
 
+
+(* the paths of a table are pairwise distinct *)
+Lemma all_pats_nodup : forall m, wf_groups (m_groups m) -> NoDup (map e_pat (all_entries m)).
+Proof.
+  intros m [Hnd Hwf]. unfold all_entries. induction (m_groups m) as [|[k es] gs IH]; cbn; [constructor|].
+  cbn in Hnd. inversion Hnd as [|? ? Hk Hnd']; subst.
+  rewrite map_app. apply NoDup_app_intro.
+  - destruct (Hwf (k, es) (or_introl eq_refl)) as [_ [_ [_ H]]]. exact H.
+  - apply IH; auto. intros g Hg. apply Hwf. now right.
+  - intros p Hp1 Hp2. apply in_map_iff in Hp1 as [a [Ha1 Ha2]]. apply in_map_iff in Hp2 as [b [Hb1 Hb2]].
+    apply in_flat_map in Hb2 as [g [Hg Hb2]].
+    destruct (Hwf (k, es) (or_introl eq_refl)) as [_ [_ [Hl1 _]]].
+    destruct (Hwf g (or_intror Hg)) as [_ [_ [Hl2 _]]]. cbn in Hl1.
+    apply Hk. replace k with (fst g); [now apply in_map|].
+    rewrite <- (Hl2 b Hb2), <- (Hl1 a Ha2). congruence.
+Qed.
+
+(* more than one matching entry: one of them has a path other than p *)
+Lemma other_match : forall m (f : entry -> bool) p, wf_groups (m_groups m) ->
+  ~ length (filter f (all_entries m)) <= 1 ->
+  exists x, In x (all_entries m) /\ f x = true /\ e_pat x <> p.
+Proof.
+  intros m f p Hw Hlen. pose proof (all_pats_nodup m Hw) as Hnd.
+  revert Hnd Hlen. generalize (all_entries m). intros l Hnd Hlen.
+  assert (H2 : exists x y, In x l /\ In y l /\ f x = true /\ f y = true /\ e_pat x <> e_pat y).
+  { induction l as [|a l IH]; [cbn in Hlen; lia|].
+    cbn in Hnd. inversion Hnd as [|? ? Ha Hnd']; subst. cbn [filter] in Hlen.
+    destruct (f a) eqn:Ea.
+    - cbn [length] in Hlen.
+      destruct (filter f l) as [|b r] eqn:Ef; [cbn in Hlen; lia|].
+      assert (Hb : In b (filter f l)) by (rewrite Ef; now left). apply filter_In in Hb as [Hb1 Hb2].
+      exists a, b. split; [now left|split; [now right|split; [auto|split; [auto|]]]].
+      intros E. apply Ha. rewrite E. now apply in_map.
+    - destruct (IH Hnd' Hlen) as [x [y [H1 [H3 H4]]]]. exists x, y. split; [now right|split; [now right|auto]]. }
+  destruct H2 as [x [y [Hx [Hy [Hfx [Hfy Hne]]]]]].
+  destruct (pat_eqb (e_pat x) p) eqn:E.
+  - apply pat_eqb_eq in E. exists y. split; [auto|split; [auto|congruence]].
+  - apply pat_eqb_neq in E. exists x. auto.
+Qed.
+
+
+(* ------------------------------------------------------------------ a matcher built from a key list *)
+
+Lemma fold_put_wf : forall (l : list (pat * option qfilter)) m, wf_groups (m_groups m) ->
+  wf_groups (m_groups (fold_left (fun m pf => m_put m (fst pf) (snd pf)) l m)).
+Proof. induction l as [|pf l IH]; intros m H; cbn; auto. apply IH. now apply wf_put. Qed.
+
+Lemma m_of_list_wf : forall l, wf_groups (m_groups (m_of_list l)).
+Proof. intros l. unfold m_of_list. apply fold_put_wf. apply wf_empty. Qed.
+
+Lemma fold_put_entries : forall (l : list (pat * option qfilter)) m x, wf_groups (m_groups m) ->
+  NoDup (map fst l) -> (forall pf, In pf l -> fst pf <> []) ->
+  (forall pf e, In pf l -> In e (all_entries m) -> e_pat e <> fst pf) ->
+  (In x (all_entries (fold_left (fun m pf => m_put m (fst pf) (snd pf)) l m))
+   <-> In x (all_entries m) \/ exists pf, In pf l /\ x = mkEntry (fst pf) (snd pf)).
+Proof.
+  induction l as [|[p f] l IH]; intros m x Hw Hnd Hne Hdis; cbn [fold_left].
+  - split; [now left|]. intros [H|[pf [[] _]]]. exact H.
+  - cbn [map fst] in Hnd. inversion Hnd as [|? ? Hp Hnd']; subst. cbn [fst snd].
+    assert (Hpne : p <> []) by (apply (Hne (p, f)); now left).
+    rewrite IH; auto.
+    + rewrite all_entries_put by auto. split.
+      * intros [[H|[H _]]|[pf [H1 H2]]].
+        -- right. exists (p, f). split; [now left|auto].
+        -- now left.
+        -- right. exists pf. split; [now right|auto].
+      * intros [H|[pf [[H1|H1] H2]]].
+        -- left. right. split; auto. apply (Hdis (p, f) x); auto. now left.
+        -- subst pf. left. left. exact H2.
+        -- right. exists pf. auto.
+    + now apply wf_put.
+    + intros pf Hpf. apply Hne. now right.
+    + intros pf e Hpf He. apply all_entries_put in He as [He|[He _]]; auto.
+      * subst e. cbn [e_pat]. intros E. apply Hp. rewrite E. now apply in_map.
+      * apply (Hdis pf e); auto. now right.
+Qed.
+
+Lemma m_of_list_entries : forall l x, NoDup (map fst l) -> (forall pf, In pf l -> fst pf <> []) ->
+  (In x (all_entries (m_of_list l)) <-> exists pf, In pf l /\ x = mkEntry (fst pf) (snd pf)).
+Proof.
+  intros l x Hnd Hne. unfold m_of_list.
+  rewrite fold_put_entries; [|apply wf_empty|exact Hnd|exact Hne|intros pf e _ []].
+  split; [intros [[]|H]; auto|intros H; now right].
+Qed.
+
 End MatcherProofs.
